@@ -1,8 +1,47 @@
-import Req.Driver.Proto
-/-! Driver lanes of C18. -/
+import Req.Driver.L.C18Codec
+import Req.Driver.L.C18Pipe
+/-! Driver lanes of C18 (classification and binding; the pipeline lane is in `C18Pipe`). -/
 namespace Req.Driver.L.C18
-open Req.Proto
+open Req.Proto Req.Result
 
-def lanes : List (String × (List String → String)) := []
+/-- `c18classify <hasHttp> <custom> <status>` → `<state> <isSuccessState> <isErrorState> <autoReadGuard>` -/
+def laneClassify : List String → String
+  | [hh, cu, st] =>
+    match parseBool hh, parseState cu, decodeInt st with
+    | some hh, some cu, some st =>
+      showState (classify hh cu st) ++ " " ++ showBool (isSuccessState hh cu st) ++ " " ++
+        showBool (isErrorState hh cu st) ++ " " ++ showBool (autoReadStatus st)
+    | _, _, _ => "bad-op"
+  | _ => "bad-op"
+
+/-- `c18ct <content-type hex>` → `json|xml` -/
+def laneCt : List String → String
+  | [ct] =>
+    match decodeHex ct with
+    | some ct => showCodec (some (codecFor ct))
+    | none => "bad-op"
+  | _ => "bad-op"
+
+/-- `c18bind <hasHttp> <status> <custom> <succTarget> <errTarget> <commonErr> <respErr> <cached>
+<readOK> <ct> <jsonOK> <xmlOK>` → `res=… err=… ret=… respErr=… cached=… codec=…` -/
+def laneBind : List String → String
+  | [hh, st, cu, sT, eT, cE, re, ca, rd, ct, jo, xo] =>
+    match parseBool hh, decodeInt st, parseState cu, parseBool sT, parseBool eT, parseBool cE,
+          parseErr re, parseBool ca, parseBool rd, decodeHex ct, parseBool jo, parseBool xo with
+    | some hh, some st, some cu, some sT, some eT, some cE, some re, some ca, some rd, some ct, some jo, some xo =>
+      let h : Http := { status := st, ct := ct, custom := cu, readOK := rd, jsonOK := jo, xmlOK := xo }
+      let o := parseBody { http := if hh then some h else none, successTarget := sT, errorTarget := eT,
+                           commonErr := cE, respErr := re, bodyCached := ca, slots := {} }
+      "res=" ++ showBool o.slots.result ++ " err=" ++ showSlotErr o.slots.error ++ " ret=" ++ showErr o.err ++
+        " respErr=" ++ showErr o.respErr ++ " cached=" ++ showBool o.bodyCached ++ " codec=" ++ showCodec o.codec
+    | _, _, _, _, _, _, _, _, _, _, _, _ => "bad-op"
+  | _ => "bad-op"
+
+def lanes : List (String × (List String → String)) := [
+  ("c18classify", laneClassify),
+  ("c18ct", laneCt),
+  ("c18bind", laneBind),
+  ("c18pipe", lanePipe)
+]
 
 end Req.Driver.L.C18
